@@ -141,6 +141,9 @@ def plan_for(world, positions):
     ops += gen.layered_read_ops(read, cb={} if cbv else None, init=world["init"])
     ops.append({"op": "errLocation", "tag": "loc"})
     ops.append({"op": "readFile", "o": 8, "path": "$ROOT/nosuch/file.conf", "delim": D, "comment": C, "tag": "missing"})
+    # missing in another way: a path component is a regular file (ENOTDIR), the name is too long for the file system
+    ops.append({"op": "readFile", "o": 8, "path": "$ROOT/stale/good.conf/child.conf", "delim": D, "comment": C, "tag": "missing"})
+    ops.append({"op": "readFile", "o": 8, "path": "$ROOT/stale/" + "n" * 300 + ".conf", "delim": D, "comment": C, "tag": "missing"})
     if world.get("errstrings"):
         for c in range(25):
             ops.append({"op": "errString", "code": c, "tag": "es%d" % c})
@@ -174,9 +177,10 @@ def check(world, plans, results):
             return v
         rd = tagged(plan, res, "read")
         loc = tagged(plan, res, "loc")
-        miss = tagged(plan, res, "missing")
-        if miss["rc"] != 3:
-            v.fail("missing-file", "reading a missing file returned %r instead of file-not-found" % miss["rc"])
+        from .base import all_tagged
+        for mi, miss in enumerate(all_tagged(plan, res, "missing")):
+            if miss["rc"] != 3:
+                v.fail("missing-file", "reading a missing file (%s) returned %r instead of file-not-found" % (["no such directory", "a path component is a regular file", "name longer than NAME_MAX"][mi], miss["rc"]))
         if expect is None:
             if rd["rc"] != 0:
                 v.fail("spurious", "plan %d (inject at %r): no malformed line by the rules of 5.1, but the read failed with %r at %r" % (k, ps, rd["rc"], loc))
